@@ -200,6 +200,7 @@ func (p *StreamPool) connections() []*connection {
 		conns = append(conns, conn)
 	}
 	p.mu.RUnlock()
+	verifOrderConns(conns)
 	return conns
 }
 
@@ -241,10 +242,12 @@ func (a *Assembler) FlushWithOptions(opt FlushOptions) (flushed, closed int) {
 	flushes := 0
 	for _, conn := range conns {
 		flushed := false
+		verifYield("conn.lock", conn)
 		conn.mu.Lock()
 		if conn.closed {
 			// Already closed connection, nothing to do here.
 			conn.mu.Unlock()
+			verifYield("conn.unlock", conn)
 			continue
 		}
 		for conn.first != nil && conn.first.Seen.Before(opt.T) {
@@ -264,6 +267,7 @@ func (a *Assembler) FlushWithOptions(opt FlushOptions) (flushed, closed int) {
 			flushes++
 		}
 		conn.mu.Unlock()
+		verifYield("conn.unlock", conn)
 	}
 	return flushes, closes
 }
@@ -280,11 +284,13 @@ func (a *Assembler) FlushAll() (closed int) {
 	conns := a.connPool.connections()
 	closed = len(conns)
 	for _, conn := range conns {
+		verifYield("conn.lock", conn)
 		conn.mu.Lock()
 		for !conn.closed {
 			a.skipFlush(conn)
 		}
 		conn.mu.Unlock()
+		verifYield("conn.unlock", conn)
 	}
 	return
 }
@@ -489,6 +495,7 @@ func (p *StreamPool) newConnection(k key, s Stream, ts time.Time) (c *connection
 	}
 	index := len(p.free) - 1
 	c, p.free = p.free[index], p.free[:index]
+	verifYield("pool.new", c)
 	c.reset(k, s, ts)
 	return c
 }
@@ -503,6 +510,7 @@ func (p *StreamPool) getConnection(k key, end bool, ts time.Time) *connection {
 	if end || conn != nil {
 		return conn
 	}
+	verifYield("pool.miss", nil)
 	s := p.factory.New(k[0], k[1])
 	p.mu.Lock()
 	conn = p.newConnection(k, s, ts)
@@ -559,11 +567,14 @@ func (a *Assembler) AssembleWithTimestamp(netFlow gopacket.Flow, t *layers.TCP, 
 			}
 			return
 		}
+		verifYield("conn.lock", conn)
 		conn.mu.Lock()
 		if !conn.closed {
 			break
 		}
 		conn.mu.Unlock()
+		verifYield("conn.unlock", conn)
+		verifYield("conn.retry", conn)
 	}
 	if conn.lastSeen.Before(timestamp) {
 		conn.lastSeen = timestamp
@@ -613,6 +624,7 @@ func (a *Assembler) AssembleWithTimestamp(netFlow gopacket.Flow, t *layers.TCP, 
 		a.sendToConnection(conn)
 	}
 	conn.mu.Unlock()
+	verifYield("conn.unlock", conn)
 }
 
 func byteSpan(expected, received Sequence, bytes []byte) (toSend []byte, next Sequence) {
@@ -666,6 +678,7 @@ func (a *Assembler) skipFlush(conn *connection) {
 }
 
 func (p *StreamPool) remove(conn *connection) {
+	verifYield("pool.remove", conn)
 	p.mu.Lock()
 	delete(p.conns, conn.key)
 	p.free = append(p.free, conn)
